@@ -310,6 +310,10 @@ func (m *Manager) AssignAddress(ctx context.Context, sessionID string, ipv4PoolI
 		}
 
 		m.mu.Lock()
+		// Re-assignment (e.g. walled garden -> ISP pool): the previous address no longer identifies this session
+		if old := session.IPv4; old != nil && !old.Equal(ip) && m.byIP[old.String()] == sessionID {
+			delete(m.byIP, old.String())
+		}
 		session.IPv4 = ip
 		session.SubnetMask = mask
 		session.Gateway = gateway
@@ -328,6 +332,9 @@ func (m *Manager) AssignAddress(ctx context.Context, sessionID string, ipv4PoolI
 			)
 		} else {
 			m.mu.Lock()
+			if old := session.IPv6; old != nil && !old.Equal(ip) && m.byIP[old.String()] == sessionID {
+				delete(m.byIP, old.String())
+			}
 			session.IPv6 = ip
 			session.IPv6Prefix = prefix
 			if ip != nil {
